@@ -90,6 +90,33 @@ def analyse(text: str) -> dict:
         for st in ast.walk(init)
     )
 
+    # the lock is created exactly once, eagerly, in __init__ — never lazily inside a method (a lazily published
+    # lock is itself an unsynchronised check-then-act: two first callers would each build their own)
+    def _is_lock_ctor(n: ast.AST) -> bool:
+        return isinstance(n, ast.Call) and ast.unparse(n.func).split(".")[-1] in ("Lock", "RLock", "Semaphore", "BoundedSemaphore", "Condition")
+
+    def _assigns_lock(n: ast.AST) -> bool:
+        if isinstance(n, ast.Assign):
+            return any(ast.unparse(t) == "self._lock" for t in n.targets)
+        if isinstance(n, (ast.AnnAssign, ast.AugAssign)):
+            return ast.unparse(n.target) == "self._lock"
+        if isinstance(n, ast.NamedExpr):
+            return False
+        return False
+
+    ctor_sites = [(fn.name, n) for fn in fns.values() for n in ast.walk(fn) if _is_lock_ctor(n)]
+    assign_sites = [(fn.name, n) for fn in fns.values() for n in ast.walk(fn) if _assigns_lock(n)]
+    setattr_sites = [n for fn in fns.values() for n in ast.walk(fn)
+                     if isinstance(n, ast.Call) and ast.unparse(n.func) in ("setattr", "object.__setattr__")]
+    out["lockCreatedInInit"] = (
+        len(ctor_sites) == 1 and ctor_sites[0][0] == "__init__"
+        and len(assign_sites) == 1 and assign_sites[0][0] == "__init__"
+        and isinstance(assign_sites[0][1], ast.Assign)
+        and ast.unparse(assign_sites[0][1]) == "self._lock = threading.Lock()"
+        and assign_sites[0][1] in _body(init)  # unconditional top-level statement of __init__
+        and not setattr_sites
+    )
+
     # ---- check_and_add
     caa = fns["check_and_add"]
     body = _body(caa)
@@ -215,6 +242,10 @@ def clockReadBeforeLock : Bool := {_b(a["clockReadBeforeLock"])}
 /-- `__init__` creates exactly one lock (`self._lock = threading.Lock()`), `check_and_add` has exactly one
 `with self._lock:` -/
 def singleLock : Bool := {_b(a["singleLock"])}
+
+/-- `self._lock = threading.Lock()` is an unconditional statement of `__init__`, and no method constructs a
+synchronisation primitive or assigns `self._lock` (the lock is never created or replaced lazily) -/
+def lockCreatedInInit : Bool := {_b(a["lockCreatedInInit"])}
 
 /-- the `with` body is: `self._sweep(now)`; `if nonce in self._entries: self._replays += 1; return False`;
 the evict loop; `self._entries[nonce] = …`; `return True` -/
